@@ -31,3 +31,38 @@ fn t19_string_form_round_trips_on_boundary_values() {
         }
     }
 }
+
+/// Conformance TEST (not a proof): sign rule and magnitude of `*`, `/`, checked_mul, checked_div on boundary magnitudes x both signs.
+/// Stands in, on the compiled crate, for the 128-bit divider circuit that CBMC cannot finish (the unbounded statement is Verus').
+#[test]
+fn t19_mul_div_sign_rule_on_boundary_values() {
+    let mags: Vec<u128> = vec![0, 1, 2, 3, 4, 5, 7, 12, 48, 1000, u64::MAX as u128, (u64::MAX as u128) + 1, 1 << 100, u128::MAX / 2, u128::MAX - 1, u128::MAX];
+    for &ma in mags.iter() {
+        for &mb in mags.iter() {
+            for na in [false, true] {
+                for nb in [false, true] {
+                    let a = Integer { value: Uint128::new(ma), negative: na };
+                    let b = Integer { value: Uint128::new(mb), negative: nb };
+                    let neg = (na && ma != 0) != (nb && mb != 0);
+                    match ma.checked_mul(mb) {
+                        Some(m) => {
+                            let r = a.checked_mul(b).expect("product fits");
+                            assert_eq!(r.value.u128(), m);
+                            assert_eq!(r.is_negative(), neg && m != 0, "sign of {} * {}", a, b);
+                            assert!(r == a * b);
+                        }
+                        None => assert!(a.checked_mul(b).is_err()),
+                    }
+                    if mb == 0 {
+                        assert!(a.checked_div(b).is_err());
+                    } else {
+                        let r = a.checked_div(b).expect("non-zero divisor");
+                        assert_eq!(r.value.u128(), ma / mb);
+                        assert_eq!(r.is_negative(), neg && ma / mb != 0, "sign of {} / {}", a, b);
+                        assert!(r == a / b);
+                    }
+                }
+            }
+        }
+    }
+}
